@@ -552,6 +552,23 @@ def run(ctx, escalated=False):
         cases.append(status_case(ctx, False, directed=d_))
     import condsim
     import shutil
+    # directed: a job lost to a hardware failure while it is still pending, and nothing else moves - the
+    # table must show the new job id after that very poll (seeded change C12-o rewrote the table only
+    # when a state or a restart count changed, or something was running)
+    two = {"description": {"name": "two", "description": "two independent steps"},
+           "study": [{"name": "left", "description": "d", "run": {"cmd": "echo l"}},
+                     {"name": "right", "description": "d", "run": {"cmd": "echo r"}}]}
+    for k, entry in enumerate(("direct", "fg", "bg")):
+        script = [{}, {"left": "PENDING", "right": "PENDING"}, {"left": "HWFAILURE", "right": "PENDING"},
+                  {"left": "PENDING", "right": "PENDING"}, {"left": "PENDING", "right": "PENDING"},
+                  {"left": "RUNNING", "right": "FINISHED"}]
+        r = condsim.run(ctx, ctx.rng, "hw%d" % k, entry=entry, spec=two,
+                        force={"_script": script, "throttle": 0, "rlimit": 1, "attempts": 1, "use_tmp": False})
+        if r is None:
+            continue
+        cases.append(Case({"kind": "conductor-hardware-failure-while-pending", "spec": r["spec"], "polls": r["polls"],
+                           "entry": entry}, [], [], r["mon"]["C12"][:3], True))
+        ctx.count("conductor-hardware-failure-while-pending")
     for k in range(40 if quick else 1000):
         r = condsim.run(ctx, ctx.rng, k)
         if r is None:
